@@ -157,6 +157,6 @@ Example C06_example_weighted :
   length (accepted_keys ex3_flat) = 32 /\ length (all_valid (code_sem ex3_flat)) = 32 /\
   check_accepted_count ex3_flat = true.
 Proof.
-  split; [apply ex3_frag|]. split; [apply ex3_frag|]. split; [apply ex3_frag|]. split; [apply ex3_keys|]. split; [apply ex3_keys|].
-  split; [apply ex3_keys | apply ex3_checks].
+  split; [exact ex3_frag2|]. split; [exact ex3_frag1|]. split; [exact ex3_enum|]. split; [exact ex3_nkeys|]. split; [exact ex3_nacc|].
+  split; [exact ex3_nvalid | exact ex3_acount].
 Qed.
